@@ -10,7 +10,8 @@ exponents, conversions `a -> u`, the six comparison operators, `&&`, `||`, `!`, 
 values of the operands (`&&`/`||` are *not* short-circuiting: `Op::LogicalAnd`/`Op::LogicalOr` take
 both operands from the stack); a conditional evaluates only the branch taken (`Op::JumpIfFalse`);
 a global is read back as the raw value that was stored; a call evaluates the arguments left to right,
-binds them to the parameters and evaluates the body (`Op::Call`, no simplification of the result).
+binds them to the parameters, evaluates the `where` clauses in order (each value is one more local) and then
+the body (`Op::Call`, no simplification of the result).
 Evaluation takes a fuel argument that bounds the nesting depth of expressions plus calls (recursive
 functions need not terminate); `outOfFuel` is not an outcome of the real interpreter.
 -/
@@ -58,9 +59,11 @@ inductive PExpr (α : Type) where
   | arg (a rest : PExpr α)
 deriving Repr
 
-/-- a user function: number of parameters and body -/
+/-- a user function: number of parameters, the right-hand sides of its `where` clauses (each may refer to the
+parameters and to the earlier clauses: they become further locals, in order) and body -/
 structure FnDef (α : Type) where
   arity : Nat
+  wheres : List (PExpr α) := []
   body : PExpr α
 deriving Repr
 
@@ -94,6 +97,17 @@ def binB (x y : Except PErr (PVal α)) (f : Bool → Bool → Bool) : Except PEr
   | .ok (.q _), .ok _ => .error .stuck
   | .error e, _ => .error e
   | .ok _, .error e => .error e
+
+/-- one `where` clause: its right-hand side is evaluated (by `ev`) with the locals so far and becomes the next
+local; a failure ends the call -/
+def whereStep (ev : List (PVal α) → PExpr α → Except PErr (PVal α))
+    (acc : Except PErr (List (PVal α))) (w : PExpr α) : Except PErr (List (PVal α)) :=
+  match acc with
+  | .error err => .error err
+  | .ok l =>
+    match ev l w with
+    | .ok v => .ok (l ++ [v])
+    | .error err => .error err
 
 mutual
 /-- evaluation as the VM does it; `glob` holds the raw values of the globals defined so far, `loc` the
@@ -151,7 +165,13 @@ def evalP (tbl : Table α) (fns : List (FnDef α)) (glob : List (PVal α)) :
       | .ok vs =>
         match fns[f]? with
         | none => .error .stuck
-        | some fd => if vs.length = fd.arity then evalP tbl fns glob fuel vs fd.body else .error .stuck
+        | some fd =>
+          if vs.length = fd.arity then
+            -- the `where` clauses are evaluated in order, each value becomes the next local
+            match fd.wheres.foldl (whereStep (fun l w => evalP tbl fns glob fuel l w)) (.ok vs) with
+            | .error err => .error err
+            | .ok loc' => evalP tbl fns glob fuel loc' fd.body
+          else .error .stuck
     | .noarg => .error .stuck
     | .arg _ _ => .error .stuck
 
